@@ -495,3 +495,57 @@ def count_events(path):
             if m:
                 c[m.group(1)] = c.get(m.group(1), 0) + 1
     return c
+
+
+def validate_branching(module, cfg, trace, nchunks=NCPU, start_event='Call', timeout=1800):
+    """Trace validation for trace specs in which TLC has to infer unlogged variables (branching search, depth-first
+    queue).  The spec's invariant NotDone (l <= Len(Tr)) is VIOLATED exactly when some branch consumed the whole chunk.
+    When no branch does, the deepest line reached identifies the call that could not be explained; it is recorded and
+    validation resumes after that call.  Returns dict(anomalies=[call json], states, calls)."""
+    chunks, nlines = split_trace(trace, nchunks, start_event)
+    out = {'anomalies': [], 'states': 0, 'transitions': 0, 'calls': 0}
+
+    def work(chunk):
+        path = chunk[0]
+        lines = open(path).read().splitlines()
+        anomalies = []
+        states = trans = 0
+        calls = sum(1 for ln in lines if ('"e":"%s"' % start_event) in ln)
+        guard = 0
+        while lines and guard < 50:
+            guard += 1
+            with open(path, 'w') as f:
+                f.write('\n'.join(lines) + '\n')
+            r = tlc(module, cfg, workers=1, env={'TRACE': path}, timeout=timeout, dfs=True, xmx='3g', tag='tb_' + module)
+            if r['rc'] == -9:
+                raise HarnessError('TLC timed out on %s' % path)
+            states += r['distinct']
+            trans += r['generated']
+            if r['violated'] and 'NotDone' in r['out']:
+                break                                   # accepted
+            if r['rc'] != 0:
+                raise HarnessError('TLC failed on branching trace %s rc=%s\n%s' % (path, r['rc'], r['out'][-2000:]))
+            depth = r['depth']                          # states along the longest branch = consumed lines + 1
+            consumed = max(0, depth - 1)
+            # the call that contains line `consumed + 1` (1-based) is unexplained
+            idx = min(consumed, len(lines) - 1)
+            start = idx
+            while start > 0 and ('"e":"%s"' % start_event) not in lines[start]:
+                start -= 1
+            end = idx + 1
+            while end < len(lines) and ('"e":"%s"' % start_event) not in lines[end]:
+                end += 1
+            anomalies.append({'call': json.loads(lines[start]), 'segment': lines[start:end], 'stuck_at_event': idx - start})
+            lines = lines[end:]
+        try:
+            os.remove(path)
+        except OSError:
+            pass
+        return anomalies, states, trans, calls
+    with cf.ThreadPoolExecutor(max_workers=min(max(1, len(chunks)), NCPU)) as ex:
+        for a, s, t, c in ex.map(work, chunks):
+            out['anomalies'] += a
+            out['states'] += s
+            out['transitions'] += t
+            out['calls'] += c
+    return out
